@@ -111,7 +111,13 @@ fn resolve(tree: &BTreeMap<String, Node>, path: &str) -> Option<Node> {
             continue;
         }
         if comp == ".." {
-            return None; // not generated
+            // `cur` is canonical (links are replaced by their targets): the parent is lexical.
+            // (Paths that climb above the tree root are filtered out by the caller.)
+            if !cur.is_empty() && !matches!(tree.get(&cur)?, Node::Dir) {
+                return None;
+            }
+            cur = cur.rsplit_once('/').map(|(p, _)| p.to_string()).unwrap_or_default();
+            continue;
         }
         let next = if cur.is_empty() { comp.to_string() } else { format!("{cur}/{comp}") };
         match tree.get(&next)? {
@@ -143,11 +149,21 @@ fn real_dir(tree: &BTreeMap<String, Node>, path: &str) -> Option<String> {
     }
     let mut cur = String::new();
     for comp in path.split('/').filter(|c| !c.is_empty() && *c != ".") {
+        if comp == ".." {
+            if !cur.is_empty() && !matches!(tree.get(&cur)?, Node::Dir) {
+                return None;
+            }
+            cur = cur.rsplit_once('/').map(|(p, _)| p.to_string()).unwrap_or_default();
+            continue;
+        }
         let next = if cur.is_empty() { comp.to_string() } else { format!("{cur}/{comp}") };
         match tree.get(&next)? {
             Node::Link(t) => cur = t.clone(),
             _ => cur = next,
         }
+    }
+    if cur.is_empty() {
+        return Some(cur);
     }
     matches!(tree.get(&cur)?, Node::Dir).then_some(cur)
 }
@@ -213,6 +229,21 @@ fn refglob(tree: &BTreeMap<String, Node>, field: &[PC], cwd: &str, noglob: bool)
     if absolute {
         // absolute patterns are not generated (the tree lives under /t)
         return Ref::Unspecified;
+    }
+    // a `..` component that climbs above the root of the modelled tree leaves the model
+    {
+        let mut depth = cwd.split('/').filter(|c| !c.is_empty()).count() as i32;
+        for c in &comps {
+            let t: String = c.iter().map(|p| p.0).collect();
+            match t.as_str() {
+                "" | "." => {}
+                ".." => depth -= 1,
+                _ => depth += 1,
+            }
+            if depth < 0 {
+                return Ref::Unspecified;
+            }
+        }
     }
     let mut partial: Vec<(String, Option<String>)> = vec![(String::new(), start_dir)];
     let n = comps.len();
